@@ -36,12 +36,14 @@ Record drv := mkDrv {
 (* what the driver can do to the outside world: one CSN-framed SPI transfer, the CE pin *)
 Record busops (bus : Type) := mkBus {
   b_spi : bus -> list N -> bus * list N;
-  b_ce : bus -> bool -> bus }.
-Arguments b_spi {bus}. Arguments b_ce {bus}.
+  b_ce : bus -> bool -> bus;
+  b_now : bus -> bus * N;          (* time.monotonic_ns() *)
+  b_sleep : bus -> N -> bus }.     (* time.sleep(), in ns *)
+Arguments b_spi {bus}. Arguments b_ce {bus}. Arguments b_now {bus}. Arguments b_sleep {bus}.
 
 (* radio number `me` of a world as a bus *)
 Definition WB (me : nat) : busops world :=
-  mkBus world (fun w m => w_spi w me m) (fun w v => w_ce w me v).
+  mkBus world (fun w m => w_spi w me m) (fun w v => w_ce w me v) w_now w_sleep.
 
 Section Driver.
   Context {bus : Type} (B : busops bus).
@@ -70,6 +72,14 @@ Section Driver.
                       (d_is_plus d) in
       (Ok miso, d', w').
   Definition set_ce (v : bool) : M unit := fun d w => (Ok tt, d, b_ce B w v).
+  Definition now : M N := fun d w => let '(w', t) := b_now B w in (Ok t, d, w').
+  Definition sleep (ns : N) : M unit := fun d w => (Ok tt, d, b_sleep B w ns).
+  (* delta_time = time.monotonic_ns() - start_timer
+     if delta_time < 150000: time.sleep((150000 - delta_time) / 1000000000) *)
+  Definition listen_delay (start : N) : M unit :=
+    t <- now ;;
+    let delta := (t - start)%N in
+    if (delta <? 150000)%N then sleep (150000 - delta)%N else ret tt.
 
   (* self._out[i] = value raises ValueError unless 0 <= value <= 255 *)
   Definition as_byte (v : Z) : M N :=
@@ -237,7 +247,7 @@ Section Driver.
   Definition set_power (on : bool) : M unit :=
     c <- reg_read 0 ;;
     let v := Z.lor (Z.land c 125) (Z.shiftl (zb on) 1) in
-    modify (upd_config v) ;;; reg_write 0 v.
+    modify (upd_config v) ;;; reg_write 0 v ;;; sleep 150000.
   Definition get_listen : M bool :=
     p <- get_power ;; d <- get ;; ret (p && truthy (Z.land (d_config d) 1)).
   Definition set_listen (is_rx : bool) : M unit :=
@@ -245,7 +255,8 @@ Section Driver.
     d <- get ;;
     let c := Z.lor (Z.land (d_config d) 252) (2 + zb is_rx) in
     modify (upd_config c) ;;; reg_write 0 c ;;;
-    if is_rx then
+    start <- now ;;
+    (if is_rx then
       set_ce true ;;;
       d <- get ;;
       match d_pipe0_read_addr d with
@@ -267,7 +278,8 @@ Section Driver.
       if truthy (Z.land (d_aa d) 1) && negb (truthy (Z.land (d_open_pipes d) 1)) then
         let v := Z.lor (d_open_pipes d) 1 in
         modify (upd_open_pipes v) ;;; reg_write 2 v
-      else ret tt.
+      else ret tt) ;;;
+    listen_delay start.
 
   (* ---- payload length / dynamic payloads / auto-ack ---- *)
   Definition set_nth_z (l : list Z) (i : nat) (v : Z) : list Z :=
@@ -548,7 +560,7 @@ Section Driver.
     set_ce false ;;;
     d <- get ;;
     let c := Z.land (d_config d) 125 in
-    modify (upd_config c) ;;; reg_write 0 c.
+    modify (upd_config c) ;;; reg_write 0 c ;;; sleep 150000.
 
   (* ---- constructor (rf24.py:60-121) ---- *)
   Definition init_drv : drv :=
